@@ -130,6 +130,9 @@ def lattice():
             if level == 0 and count > 2:
                 continue
             add("aggparam_decode", "level=%d,count=%d,extra=%d,sorted=%s" % (level, count, extra, srt), level=level, count=count, extra=extra, sorted=srt)
+    for lit, cls in [("0.0", "zero"), ("-0.0", "negzero"), ("0.25", "positive"), ("1.0", "positive"), ("3.4e38", "positive"), ("1e-40", "positive"),
+                     ("-0.5", "negative"), ("-1.0", "negative"), ("-1e-40", "negative"), ("-3.4e38", "negative"), ("NaN", "nan"), ("inf", "inf"), ("-inf", "inf")]:
+        add("rational_f32", lit, lit=lit, cls=cls)
     for ln in [0, 2, 3, 4]:
         for op in ("agg_wrong_len", "unshard_wrong_len", "truncate_len", "decode_result_len"):
             add(op, "want=3,len=%d" % ln, want=3, got=ln)
